@@ -21,7 +21,7 @@ def show(j):
         if r["id"]==0: out.append("  SecMarker "+uf(r["mk"])); continue
         for i,l in enumerate(r["links"]):
             op=l["op"]; o="SecAction" if op is None else ("!" if op["neg"] else "")+"@"+op["n"]+" "+uf(op["a"])
-            hd=f"id:{r['id']},ph:{r['ph']},{r['disr'] or 'pass'},st:{r['st']},skip:{r['skip']},sa:{uf(r['sa'])},sev:{r['sev']},tags:{[uf(t) for t in r['tags']]},log:{r['log']},audit:{r['audit']}" if i==0 else "   chain"
+            hd=f"id:{r['id']},msg:{uf(r.get('msg','-'))},ph:{r['ph']},{r['disr'] or 'pass'},st:{r['st']},skip:{r['skip']},sa:{uf(r['sa'])},sev:{r['sev']},tags:{[uf(t) for t in r['tags']]},log:{r['log']},audit:{r['audit']}" if i==0 else "   chain"
             out.append(f"  {hd} | {'|'.join(tgt(t) for t in l['tg'])} \"{o}\" t:{l['tfs']} mm:{l['mm']} {[nact(a) for a in l['na']]}")
     out.append(f"  mode={j['mode']} get={[(uf(a),uf(b)) for a,b in j['get']]} post={[(uf(a),uf(b)) for a,b in j['post']]} hdr={[(uf(a),uf(b)) for a,b in j['hdr']]} calls={j['calls']}")
     return "\n".join(out)
